@@ -42,6 +42,7 @@ type c12Frame struct {
 	results []c12Val
 	named   []types.Object
 	label   string // label targeted by a pending break/continue ("" = innermost)
+	defers  []*ast.DeferStmt
 }
 
 type c12Exec struct {
@@ -64,6 +65,11 @@ type c12Exec struct {
 	reverse bool
 	// snap: call records carry a snapshot of the receiver state written so far
 	snap bool
+	// defers: deferred calls are executed when their function returns (last in, first out); without it they are ignored
+	defers bool
+	// writerNative: fmt.Fprintf / fmt.Fprint / io.WriteString on a repository type with a declared Write method
+	// call that method with the formatted bytes
+	writerNative bool
 
 	// globals != nil: a start-up table is being built (c12_init.go): package-level variables are read from and
 	// written to this map, make(map) yields a mutable map
@@ -84,7 +90,7 @@ func c12Run(p *Program, fi *FuncInfo, sink SinkFn, init map[string]c12Val, args 
 
 // c12RunOpt is c12Run with executor options taken from opt (sink, init, generic, inlineIf).
 func c12RunOpt(p *Program, fi *FuncInfo, opt *c12Exec, args ...c12Val) (paths []*c12Path, complete bool) {
-	ex := &c12Exec{p: p, sink: opt.sink, entryPkg: fi.Pkg, init: opt.init, generic: opt.generic, inlineIf: opt.inlineIf, reverse: opt.reverse, snap: opt.snap}
+	ex := &c12Exec{p: p, sink: opt.sink, entryPkg: fi.Pkg, init: opt.init, generic: opt.generic, inlineIf: opt.inlineIf, reverse: opt.reverse, snap: opt.snap, defers: opt.defers, writerNative: opt.writerNative}
 	init := opt.init
 	if fi.Decl.Recv != nil && len(fi.Decl.Recv.List) == 1 {
 		ex.recvType = anchorType(fi.Pkg.TypesInfo.TypeOf(fi.Decl.Recv.List[0].Type))
@@ -109,6 +115,7 @@ func c12RunOpt(p *Program, fi *FuncInfo, opt *c12Exec, args ...c12Val) (paths []
 		}
 		res := ex.callDecl(fi, recv, args)
 		ex.path.Ret = res
+		ex.path.Final = ex.store
 		paths = append(paths, ex.path)
 		// advance the odometer
 		taken := make([]int, len(ex.arity))
@@ -208,6 +215,20 @@ func (ex *c12Exec) callDecl(fi *FuncInfo, recv c12Val, args []c12Val) []c12Val {
 	}
 	ex.depth++
 	ctl := ex.block(fr, fi.Decl.Body.List)
+	if ex.defers && ctl != c12Abort {
+		// (arguments are evaluated when the function returns, not at the defer statement: exact for constant
+		// arguments and for receivers that are pieces of the state)
+		for i := len(fr.defers) - 1; i >= 0; i-- {
+			d := fr.defers[i]
+			if lit, ok := unparen(d.Call.Fun).(*ast.FuncLit); ok && len(d.Call.Args) == 0 {
+				saved := fr.results
+				ex.block(fr, lit.Body.List)
+				fr.results = saved
+				continue
+			}
+			ex.expr(fr, d.Call)
+		}
+	}
 	ex.depth--
 	if ctl == c12Return && fr.results != nil {
 		return fr.results
@@ -322,7 +343,12 @@ func (ex *c12Exec) stmt(fr *c12Frame, s ast.Stmt) c12Ctl {
 	switch st := s.(type) {
 	case *ast.BlockStmt:
 		return ex.block(fr, st.List)
-	case *ast.EmptyStmt, *ast.DeferStmt, *ast.GoStmt:
+	case *ast.DeferStmt:
+		if ex.defers {
+			fr.defers = append(fr.defers, st)
+		}
+		return c12Next
+	case *ast.EmptyStmt, *ast.GoStmt:
 		return c12Next
 	case *ast.ExprStmt:
 		ex.expr(fr, st.X)
@@ -515,6 +541,7 @@ func (ex *c12Exec) forStmt(fr *c12Frame, st *ast.ForStmt) c12Ctl {
 			}
 			if !ok {
 				ex.path.Skipped = append(ex.path.Skipped, fmt.Sprintf("loop with unknown bound %s in %s", canonExpr(fr.info, st.Cond), fr.fn))
+				ex.path.SkippedAt = append(ex.path.SkippedAt, c12SkippedLoop{Node: st, Pkg: fr.pk, Fn: fr.fn})
 				return c12Next
 			}
 			if !b.V {
@@ -572,6 +599,7 @@ func (ex *c12Exec) rangeStmt(fr *c12Frame, st *ast.RangeStmt) c12Ctl {
 			return out
 		}
 		ex.path.Skipped = append(ex.path.Skipped, fmt.Sprintf("range over unknown %s in %s", canonExpr(fr.info, st.X), fr.fn))
+		ex.path.SkippedAt = append(ex.path.SkippedAt, c12SkippedLoop{Node: st, Pkg: fr.pk, Fn: fr.fn})
 		return c12Next
 	}
 	for i, el := range elems {
